@@ -148,6 +148,39 @@ def failuresFrom (s : SpecSt) : List (Op × Ans) → List Sig
 /-- the consistency clause on one schedule case -/
 def holdsOn (c : List (Op × Ans)) : Bool := (failuresFrom SpecSt.init c).isEmpty
 
+/-! ### free-running concurrent histories (supporting evidence, thorough tier)
+
+  The harness runs real goroutines (writers, readers, a snapshotter, background
+  compactions) against one real shard and records every write and read with logical
+  start / end stamps taken from one atomic counter.  No deletes.  A read is explained
+  per point (regularity): the value it returns for (key, time) was written by a write
+  that began before the read ended and is not superseded by a write of the same
+  point that lies entirely between that write and the read; and every point whose
+  write completed before the read began is returned. -/
+
+structure WEv where
+  k : Key
+  t : TS
+  v : Val
+  s : Nat
+  e : Nat
+deriving Repr
+
+structure REv where
+  k : Key
+  s : Nat
+  e : Nat
+  pts : List (TS × Val)
+deriving Repr
+
+def readExplained (ws : List WEv) (r : REv) : Bool :=
+  (r.pts.all fun p => ws.any fun w =>
+      w.k == r.k && w.t == p.1 && w.v == p.2 && decide (w.s < r.e) &&
+      !(ws.any fun w' => w'.k == r.k && w'.t == p.1 && decide (w.e < w'.s) && decide (w'.e < r.s))) &&
+  (ws.all fun w => w.k != r.k || !(decide (w.e < r.s)) || (r.pts.lookup w.t).isSome)
+
+def stressOK (ws : List WEv) (rs : List REv) : Bool := rs.all (readExplained ws)
+
 /-- the two step orders the consistency proof rests on -/
 def expectedStepOrder : List (String × List String) :=
   [("read", ["cache", "files"]), ("commit", ["replace", "clear"])]
